@@ -854,3 +854,160 @@ func (in *Interp) installBoltStubs() {
 		return in.cursorKV(c)
 	}
 }
+
+// ---- bits-and-blooms/bitset: a bit set is (length, members); Set beyond the length grows it,
+// Test beyond the length is false (the library's documented behaviour).
+type bitsetObj struct {
+	length uint64
+	elems  []*Term
+}
+
+func (in *Interp) installBitsetStubs() {
+	S := in.stubs
+	const bs = "github.com/bits-and-blooms/bitset"
+	obj := func(in *Interp, v Value) *bitsetObj {
+		p, ok := v.(PtrV)
+		if !ok || p.loc == nil {
+			in.abort("panic", "nil *bitset.BitSet")
+		}
+		o, ok := in.bitsets[p.loc]
+		if !ok {
+			in.abort("unsupported", "bitset not created through bitset.New")
+		}
+		return o
+	}
+	S[bs+".New"] = func(in *Interp, fn *ssa.Function, a []Value) Value {
+		n := a[0].(*Term)
+		if !n.IsConst() {
+			in.abort("unsupported", "bitset.New with symbolic length")
+		}
+		l := &Loc{v: BVu(8, 0)}
+		in.bitsets[l] = &bitsetObj{length: n.Uint()}
+		return PtrV{loc: l}
+	}
+	S["(*"+bs+".BitSet).ClearAll"] = func(in *Interp, fn *ssa.Function, a []Value) Value {
+		obj(in, a[0]).elems = nil
+		return a[0]
+	}
+	S["(*"+bs+".BitSet).Len"] = func(in *Interp, fn *ssa.Function, a []Value) Value {
+		return BVu(64, obj(in, a[0]).length)
+	}
+	S["(*"+bs+".BitSet).Test"] = func(in *Interp, fn *ssa.Function, a []Value) Value {
+		o := obj(in, a[0])
+		i := a[1].(*Term)
+		if !in.branch(CmpBV("bvult", i, BVu(64, o.length))) {
+			return Bool(false)
+		}
+		for _, e := range o.elems {
+			if in.branch(Eq(e, i)) {
+				return Bool(true)
+			}
+		}
+		return Bool(false)
+	}
+	S["(*"+bs+".BitSet).Set"] = func(in *Interp, fn *ssa.Function, a []Value) Value {
+		o := obj(in, a[0])
+		i := a[1].(*Term)
+		if !in.branch(CmpBV("bvult", i, BVu(64, o.length))) {
+			if !i.IsConst() {
+				v := in.concretize(i, 0, 1<<22, false)
+				i = BVu(64, uint64(v))
+			}
+			o.length = i.Uint() + 1
+		}
+		for _, e := range o.elems {
+			if in.branch(Eq(e, i)) {
+				return a[0]
+			}
+		}
+		o.elems = append(o.elems, i)
+		return a[0]
+	}
+}
+
+// ---- strings.Builder / strings.Join: byte buffers without the unsafe tricks of the real ones
+func (in *Interp) installStringStubs() {
+	S := in.stubs
+	buf := func(in *Interp, v Value) *[]*Term {
+		l := v.(PtrV).loc
+		b, ok := in.builders[l]
+		if !ok {
+			b = &[]*Term{}
+			in.builders[l] = b
+		}
+		return b
+	}
+	S["(*strings.Builder).Grow"] = func(in *Interp, fn *ssa.Function, a []Value) Value { buf(in, a[0]); return nil }
+	S["(*strings.Builder).Reset"] = func(in *Interp, fn *ssa.Function, a []Value) Value { *buf(in, a[0]) = nil; return nil }
+	S["(*strings.Builder).Len"] = func(in *Interp, fn *ssa.Function, a []Value) Value {
+		return BVi(64, int64(len(*buf(in, a[0]))))
+	}
+	S["(*strings.Builder).String"] = func(in *Interp, fn *ssa.Function, a []Value) Value {
+		return StrV{append([]*Term{}, *buf(in, a[0])...)}
+	}
+	S["(*strings.Builder).WriteString"] = func(in *Interp, fn *ssa.Function, a []Value) Value {
+		b := buf(in, a[0])
+		s := a[1].(StrV)
+		*b = append(*b, s.b...)
+		return TupleV{[]Value{BVi(64, int64(len(s.b))), IfaceV{}}}
+	}
+	S["(*strings.Builder).WriteByte"] = func(in *Interp, fn *ssa.Function, a []Value) Value {
+		b := buf(in, a[0])
+		*b = append(*b, a[1].(*Term))
+		return IfaceV{}
+	}
+	S["(*strings.Builder).Write"] = func(in *Interp, fn *ssa.Function, a []Value) Value {
+		b := buf(in, a[0])
+		s := sliceBytes(a[1].(SliceV))
+		*b = append(*b, s...)
+		return TupleV{[]Value{BVi(64, int64(len(s))), IfaceV{}}}
+	}
+	S["strings.Join"] = func(in *Interp, fn *ssa.Function, a []Value) Value {
+		el, sep := a[0].(SliceV), a[1].(StrV)
+		var out []*Term
+		for i := 0; i < el.n; i++ {
+			if i > 0 {
+				out = append(out, sep.b...)
+			}
+			out = append(out, el.arr[el.off+i].get().(StrV).b...)
+		}
+		return StrV{out}
+	}
+	S["internal/bytealg.MakeNoZero"] = func(in *Interp, fn *ssa.Function, a []Value) Value {
+		n := int(in.concretize(a[0].(*Term), 0, 1<<16, true))
+		arr := make([]*Loc, n)
+		for i := range arr {
+			arr[i] = &Loc{v: BVu(8, 0)}
+		}
+		return SliceV{arr: arr, n: n, cp: n}
+	}
+	S["internal/bytealg.IndexByteString"] = func(in *Interp, fn *ssa.Function, a []Value) Value {
+		s, c := a[0].(StrV), a[1].(*Term)
+		for i, b := range s.b {
+			if in.branch(Eq(b, c)) {
+				return BVi(64, int64(i))
+			}
+		}
+		return BVi(64, -1)
+	}
+	S["internal/bytealg.IndexByte"] = func(in *Interp, fn *ssa.Function, a []Value) Value {
+		s, c := sliceBytes(a[0].(SliceV)), a[1].(*Term)
+		for i, b := range s {
+			if in.branch(Eq(b, c)) {
+				return BVi(64, int64(i))
+			}
+		}
+		return BVi(64, -1)
+	}
+	S["internal/bytealg.CountString"] = func(in *Interp, fn *ssa.Function, a []Value) Value {
+		s, c := a[0].(StrV), a[1].(*Term)
+		n := int64(0)
+		for _, b := range s.b {
+			if in.branch(Eq(b, c)) {
+				n++
+			}
+		}
+		return BVi(64, n)
+	}
+	S["internal/stringslite.HasPrefix"] = S["strings.HasPrefix"]
+}
